@@ -270,3 +270,4 @@ impl Fnv {
     }
 }
 pub use crate::decoding::verif_dec as dec;
+pub use crate::encoding::verif_enc as enc;
